@@ -5,6 +5,24 @@ from ..project import AnalysisBroken
 from ..rules import cppflow, records, statics
 
 
+def _bound_is_nb_events(dr, c):
+    """`ievent < _config_.nb_events`, or `ievent < N` with N a local initialised from _config_.nb_events and never reassigned"""
+    c = astu.strip_casts(c)
+    if c['k'] == 'Paren':
+        c = astu.strip_casts(c['e'])
+    if c['k'] != 'Bin' or c['op'] != '<' or astu.src(astu.strip_casts(c['a'])) != 'ievent':
+        return False
+    b = astu.strip_casts(c['b'])
+    if astu.src(b) == '_config_.nb_events':
+        return True
+    if b['k'] == 'Ref' and b.get('dk') == 'local':
+        from ..rules.scopes import Locals
+        L = Locals(dr)
+        v = L.decl.get(b['id'])
+        return v is not None and 'init' in v and astu.src(astu.strip_casts(v['init'])) == '_config_.nb_events' and not L.assigns.get(b['id'])
+    return False
+
+
 def run(tier, seed):
     rep = Report('C13')
     prog = project.load('lib+programs')
@@ -72,7 +90,7 @@ def run(tier, seed):
     for n in astu.walk(dr['body']):
         if n['k'] == 'For' and n.get('init') and n['init']['k'] == 'Decl' and n['init']['vars'][0]['name'] == 'ievent':
             v = n['init']['vars'][0]
-            okc = astu.num_value(v.get('init')) == 0 and astu.src(n['c']) == '(ievent < _config_.nb_events)' and \
+            okc = astu.num_value(v.get('init')) == 0 and _bound_is_nb_events(dr, n['c']) and \
                 n['inc']['k'] == 'Un' and n['inc']['op'] == '++' and \
                 not any(r.get('name') == 'ievent' for r, how, node in statics.written_refs(n['body']))
     rep.add('LOOP.shape', 'ids-consecutive-from-0', where(dr, head.line), 'ievent runs 0, 1, ... nb_events-1', bool(okc))
